@@ -56,6 +56,19 @@ def gen_spec(r, seed, deterministic=False):
             "models": [{"hidden": r.choice(([4], [5, 5], [6, 4], [3, 3, 3])),
                         "act": r.choice(("tanh", "tanh", "adaptive"))} for _ in range(n_models)],
             "param": r.choice((0.5, 1.5)) if have_param else None}
+    rm = rnd(seed, "model-classes")
+    for m in spec["models"]:
+        # the other point-wise architectures the library ships (their state dicts must survive save / load too)
+        c = rm.random()
+        if c < 0.15:
+            m.update(cls="harmonic", maxf=rm.choice((1, 2, 3)), minf=rm.choice((0, 0, 1)))
+            m["minf"] = min(m["minf"], m["maxf"] - 1)      # the constructor demands max > min
+        elif c < 0.25:
+            m.update(cls="qres")
+        elif c < 0.33:
+            m.update(cls="ritz")
+        elif c < 0.40:
+            m.update(cls="poly")
     conds = [_cond(r, have_param, deterministic) for _ in range(r.choice((1, 2, 2, 3, 4)))]
     if conds[0]["kind"] in ("paramcond",):
         conds[0] = _cond(r, False, deterministic)
